@@ -6,7 +6,7 @@ CONSTANTS
   ValidCmds = {"c1"}
   MaxSid = 2
   MaxTime = 2
-  Duration = 1
+  Duration = 2
   Lease = 1
   MaxRec = 1
   Bug = {}
